@@ -83,6 +83,68 @@ static bool observe(vh::Ctx& c, vd::Gen& g, int i, const std::string& parentKind
   return true;
 }
 
+// Even-manifold inputs for CleanupTopology (SplitPinchedVerts + DedupeEdges):
+// W "orange-slice" wedges sharing ONE edge A-B (the edge carries 2W triangles),
+// each wedge closed by two n-triangle fans at A and B (so A and B have
+// high valence: DedupeEdges switches containers above 32 neighbours), or two
+// n-gon cones sharing their apex (pinched vertex). Valid, touching input; the
+// triangle list is shuffled and each triangle rotated (the clean-up passes are
+// order sensitive). The library may reject it or must return a 2-manifold.
+static Manifold touchingImport(vh::Rng& r, std::string& how) {
+  MeshGL64 g;
+  g.numProp = 3;
+  std::vector<std::array<double, 3>> pos;
+  std::vector<std::array<uint64_t, 3>> tris;
+  int kind = (int)r.below(3);
+  if (kind < 2) {
+    int W = (int)r.range(2, 4);
+    pos.push_back({0, 0, 1});
+    pos.push_back({0, 0, -1});
+    std::string ns;
+    for (int w = 0; w < W; w++) {
+      int n = r.chance(0.5) ? (int)r.range(2, 16) : (int)r.range(17, 70);
+      ns += (w ? "," : "") + std::to_string(n);
+      double mid = 2 * vd::kPi * w / W, half = (vd::kPi / W) * r.uni(0.3, 0.8);
+      uint64_t P0 = pos.size();
+      for (int i = 0; i < n; i++) {
+        double t = mid - half + 2 * half * i / (n - 1);
+        pos.push_back({2 * cos(t), 2 * sin(t), kind == 1 ? 0.3 * sin(3 * t) : 0.0});
+      }
+      auto P = [&](int i) { return P0 + (uint64_t)i; };
+      tris.push_back({0, 1, P(0)});
+      for (int i = 0; i + 1 < n; i++) tris.push_back({0, P(i), P(i + 1)});
+      tris.push_back({0, P(n - 1), 1});
+      for (int i = 0; i + 1 < n; i++) tris.push_back({1, P(i + 1), P(i)});
+    }
+    how = "Import(wedges sharing an edge: W=" + std::to_string(W) + ", fans=" + ns + ", shuffled)";
+  } else {
+    int n1 = (int)r.range(3, 50), n2 = (int)r.range(3, 50);
+    pos.push_back({0, 0, 0});
+    auto cone = [&](int n, double z) {
+      uint64_t c0 = pos.size();
+      pos.push_back({0, 0, z});
+      uint64_t b0 = pos.size();
+      for (int i = 0; i < n; i++) pos.push_back({cos(2 * vd::kPi * i / n), sin(2 * vd::kPi * i / n), z});
+      for (int i = 0; i < n; i++) {
+        uint64_t a = b0 + i, b = b0 + (i + 1) % n;
+        if (z > 0) { tris.push_back({0, a, b}); tris.push_back({c0, b, a}); }
+        else { tris.push_back({0, b, a}); tris.push_back({c0, a, b}); }
+      }
+    };
+    cone(n1, 1.0);
+    cone(n2, -1.0);
+    how = "Import(two cones sharing their apex: n=" + std::to_string(n1) + "," + std::to_string(n2) + ", shuffled)";
+  }
+  for (size_t i = tris.size(); i > 1; i--) std::swap(tris[i - 1], tris[r.below(i)]);
+  for (auto& q : pos)
+    for (double x : q) g.vertProperties.push_back(x);
+  for (auto& t : tris) {
+    int rot = (int)r.below(3);
+    for (int j = 0; j < 3; j++) g.triVerts.push_back(t[(j + rot) % 3]);
+  }
+  return Manifold(g);
+}
+
 void vh_case(vh::Ctx& c) {
   vd::Config cfg;
   cfg.maxTris = (size_t)c.iparam("maxTris", 3000);
@@ -96,6 +158,14 @@ void vh_case(vh::Ctx& c) {
   int n = c.rng.range(std::max(2, steps / 2), steps);
   std::vector<int> pending;
   try {
+    if (profile == "touch") {
+      std::string how;
+      Manifold t = touchingImport(c.rng, how);
+      int i0 = g.add(t, how, false, 300);
+      c.count("touching_imports");
+      if (!observe(c, g, i0, "")) return;
+      if (g.pool[i0].m.Status() == Manifold::Error::NoError) c.count("touching_imports_accepted");
+    }
     for (int s = 0; s < n; s++) {
       std::vector<int> nu;
       if (profile == "smooth" && g.pool.size() >= 2 && c.rng.chance(0.5)) {
